@@ -62,13 +62,24 @@ Proof.
   eexists. repeat split; try (vm_compute; reflexivity).
 Qed.
 
-(* $THETA (0,1,2)FIX, upper := inf: the text becomes (0,1)FIX, refused by the lexer quirk *)
-Theorem theta_refuted_glued :
-  exists root ps root', guard_fail_children Z demo (children root) ps = [4%nat]
-                        /\ theta_update Z demo root ps = Ok root' /\ reparse_ok root' = false.
-Proof.
-  exists w_glued, [P 10 (Fin 0) PInf true]. eexists. repeat split; vm_compute; reflexivity.
-Qed.
+(* FIXED (C01-THETA-XN-REFUSED, commit bd27e55, VALUE may no longer start with ")"): $THETA (0,1,2)FIX with
+   upper := inf becomes (0,1)FIX, which the grammar used to lex as "(0,1" + VALUE ")FIX" and refuse.  The former
+   witness of theta_refuted_glued is now a regression example of the repaired behaviour: the guard holds,
+   the regenerated text is accepted and reads back. *)
+Example theta_glued_rpar_fixed :
+  exists root', guard_record Z demo w_glued [P 10 (Fin 0) PInf true] = true
+                /\ theta_update Z demo w_glued [P 10 (Fin 0) PInf true] = Ok root'
+                /\ str root' = T [32; 40; 48; 44; 49; 41; 70; 73; 88; 10]%nat          (* " (0,1)FIX\n" *)
+                /\ reparse_ok root' = true
+                /\ sem Z demo (relex root') = Ok [P 10 (Fin 0) PInf true].
+Proof. eexists. repeat split; vm_compute; reflexivity. Qed.
+(* the same for a repeat group: (0,1,2)x2 with the upper bound removed from both -> (0,1)x2 *)
+Example theta_glued_xn_fixed :
+  exists root', guard_record Z demo w_xn [P 10 (Fin 0) PInf false; P 10 (Fin 0) PInf false] = true
+                /\ theta_update Z demo w_xn [P 10 (Fin 0) PInf false; P 10 (Fin 0) PInf false] = Ok root'
+                /\ reparse_ok root' = true
+                /\ sem Z demo (relex root') = Ok [P 10 (Fin 0) PInf false; P 10 (Fin 0) PInf false].
+Proof. eexists. repeat split; vm_compute; reflexivity. Qed.
 
 (* $THETA (0,1,) and upper := 2: (0,1,2,) is no sentence of the theta grammar *)
 Theorem theta_refuted_layout_trailing_separator :
